@@ -680,6 +680,49 @@ def register(rep, case, res, hostile_hint=None):
         ofail(rep, case, text, key)
 
 
+def bare_root_cases(env, rep, impl):
+    """An otherwise EMPTY served root whose parent directory holds nothing else (`<tmp>/outer/served`), writes
+    enabled: requests that fail half way (a name the OS refuses in a directory that does not exist yet, a missing
+    file, a path outside) must leave the root itself, its parent and the neighbour `<tmp>/keep` as they were.
+    Oracle only (the model's tree is never empty)."""
+    d = os.path.realpath(tempfile.mkdtemp(prefix="c19-bare-"))
+    try:
+        for forbidden in ("/repo", "/verif", VERIF, env.repo):
+            if inside(d, os.path.realpath(forbidden)):
+                raise HarnessError(f"scratch directory {d} is inside {forbidden}")
+        os.makedirs(d + "/keep")
+        with open(d + "/keep/file", "wb") as f:
+            f.write(b"neighbour")
+        root = d + "/outer/served"
+        os.makedirs(root)
+        fs = impl.server(root, True, False)
+        steps = [("PUT", ["newdir", "x\0y"]), ("PUT", ["newdir", "n" * 300]), ("PUT", ["a", "b", "c\0"]),
+                 ("PUT", ["newdir", "sub", "n" * 300]), ("DELETE", ["gone"]), ("GET", ["gone"]),
+                 ("PUT", ["..", "escape"]), ("PUT", ["", d.strip("/").split("/")[0], "x"]),
+                 ("DELETE", []), ("PUT", ["newdir", ""]), ("DELETE", ["newdir", "n" * 300])]
+        for method, comps in steps:
+            case = {"kind": "B", "m": method, "comps": comps}
+            rep.case(case, nontrivial=True, sample_every=7)
+            rep.count("bare-root:" + method)
+            req = impl.request(method, comps, b"payload" if method == "PUT" else b"")
+            try:
+                run_coro(fs.render(req))
+            except Exception:
+                pass                      # which code the request gets is judged by the ordinary levels
+            gone = [p for p in (root, d + "/outer", d + "/keep/file") if not os.path.exists(p)]
+            changed = os.path.exists(d + "/keep/file") and open(d + "/keep/file", "rb").read() != b"neighbour"
+            extra = sorted(set(os.listdir(d)) - {"keep", "outer"}) + sorted(set(os.listdir(d + "/outer")) - {"served"}) \
+                if not gone else []
+            if gone or changed or extra:
+                ofail(rep, case, f"{method} {comps!r} on an empty root: " +
+                      (f"removed {[g[len(d):] for g in gone]}" if gone else
+                       "changed the neighbour" if changed else f"created {extra} outside the root"),
+                      "outside-root-touched")
+                break
+    finally:
+        shutil.rmtree(d, ignore_errors=True)
+
+
 def run(env, rep):
     _PER_KEY.clear()
     corpus = [c for _, c in load_corpus("C19")]
@@ -699,6 +742,7 @@ def run(env, rep):
     runner = Runner(env, rep)
     try:
         impl = runner.impl
+        bare_root_cases(env, rep, impl)
         # --- P: request_to_localpath
         pcs = [(c["root"], c["comps"]) for c in corpus if c.get("kind") == "P"]
         lists = p_lists(env)
@@ -784,6 +828,24 @@ def replay(env, case):
     kind = case.get("kind")
     if kind == "J":
         return ""
+    if kind == "B":
+        class Sink:
+            def __init__(self):
+                self.failures = []
+
+            def case(self, *a, **k):
+                pass
+
+            def count(self, *a, **k):
+                pass
+
+            def oracle_fail(self, case, text, key=None):
+                self.failures.append(text)
+
+        sink = Sink()
+        _PER_KEY.clear()
+        bare_root_cases(env, sink, Impl(env))          # the whole (short) sequence: later steps depend on earlier ones
+        return sink.failures[0] if sink.failures else ""
     if kind == "P":
         impl = Impl(env)
         d = tempfile.mkdtemp(prefix="c19-")
